@@ -187,12 +187,13 @@ def revolve(
         # Append cap faces to the face array
         faces = np.vstack([faces, cap_0_faces, flipped_cap_angle_faces])
 
-    if transform is not None:
-        # apply transform to vertices
-        vertices = tf.transform_points(vertices, transform)
-
     # create the mesh from our vertices and faces
     mesh = Trimesh(vertices=vertices, faces=faces, **kwargs)
+
+    if transform is not None:
+        # apply the transform to the mesh so a mirrored
+        # placement also reverses the winding
+        mesh.apply_transform(transform)
 
     # strict checks run only in unit tests and when cap is True
     if tol.strict and (
